@@ -1372,7 +1372,10 @@ pub fn bookkeeping(seed: u64) -> Plan {
 pub fn choking(seed: u64) -> Plan {
     let mut r = Rng64::sub(seed, "choking");
     let piece_len = *r.pick(&[2000u64, 16384, 20000]);
-    let n_p = r.range(20, 40);
+    // half of the long-crowd runs keep the client downloading for the whole run (a peer that
+    // says NotInterested is dropped once the client needs nothing from it)
+    let long_download = r.chance(1, 2);
+    let n_p = if long_download { r.range(80, 140) } else { r.range(20, 40) };
     let g = simple_geometry(piece_len, n_p * piece_len - r.range(0, piece_len - 1));
     let n = g.pieces();
     let mut p = base_plan("choking", seed, g);
@@ -1394,7 +1397,7 @@ pub fn choking(seed: u64) -> Plan {
         // they never learn what they could request
         peer.unchoke = if seeder { Unchoke::OnInterested(r.range(1, 300)) } else { Unchoke::At(r.range(1, 500)) };
         // different speeds (tied for some runs)
-        let d = if tied { 1500 } else { *r.pick(&[500u64, 1000, 2000, 3000, 5000]) };
+        let d = if tied { 1500 } else if long_download { *r.pick(&[2000u64, 3000, 5000, 8000]) } else { *r.pick(&[500u64, 1000, 2000, 3000, 5000]) };
         peer.answer.delay_min = d;
         peer.answer.delay_max = d + if tied { 0 } else { r.range(0, 200) };
         peer.keepalive = Some(60_000);
@@ -1409,6 +1412,11 @@ pub fn choking(seed: u64) -> Plan {
                 peer.has = (0..n).map(|_| r.chance(1, 2)).collect();
             }
             peer.script.push(step(When::At(0), Act::Send(Msg::Interested)));
+            // a few lose interest after the first optimistic draw and regain it after the second
+            if r.chance(1, 4) {
+                peer.script.push(step(When::At(r.range(31_000, 58_000)), Act::Send(Msg::NotInterested)));
+                peer.script.push(step(When::At(r.range(61_000, 88_000)), Act::Send(Msg::Interested)));
+            }
             let period = *r.pick(&[400u64, 900, 1700, 3100, 5300]);
             for q in 0..(95_000 / period) {
                 peer.script.push(step(When::At(2000 + q * period), Act::RequestOwned(1)));
@@ -1447,7 +1455,7 @@ pub fn choking(seed: u64) -> Plan {
     let mut names: Vec<String> = p.peers.iter().filter(|x| x.listed).map(|x| x.name.clone()).collect();
     r.shuffle(&mut names);
     p.tracker.steps.push((1, TrackerStep::Good { peers: names, malformed: 0, wrong_id_for: vec![] }));
-    p.deadline_ms = if crowd { r.range(61_000, 95_000) } else { r.range(31_000, 91_000) };
+    p.deadline_ms = if crowd { r.range(61_000, 125_000) } else { r.range(31_000, 91_000) };
     p.stop_on_done = false;
     p
 }
@@ -1582,12 +1590,20 @@ pub fn keepalive(seed: u64) -> Plan {
         } else {
             peer.accept_delay = r.range(1, 5000);
         }
-        let real = |r: &mut Rng64| -> Act {
-            match r.below(4) {
+        // every kind of message other than a keep-alive counts as life (NotInterested is left out
+        // only because the client answers it by dropping an uninteresting peer)
+        let only = r.below(3) == 0;
+        let one_kind = r.below(8);
+        let real = move |r: &mut Rng64| -> Act {
+            match if only { one_kind } else { r.below(8) } {
                 0 => Act::Send(Msg::Interested),
                 1 => Act::Gain(r.below(n as u64) as u32),
                 2 => Act::Send(Msg::Bitfield(vec![0u8; (n + 7) / 8])),
-                _ => Act::Send(Msg::Choke),
+                3 => Act::Send(Msg::Choke),
+                4 => Act::Send(Msg::Cancel { index: r.below(n as u64) as u32, begin: 0, len: 16 }),
+                5 => Act::Send(Msg::Request { index: r.below(n as u64) as u32, begin: 0, len: 16 }),
+                6 => Act::Send(Msg::Unchoke),
+                _ => Act::Send(Msg::Piece { index: r.below(n as u64) as u32, begin: 0, block: vec![1, 2, 3] }),
             }
         };
         let gap = |r: &mut Rng64| -> u64 {
@@ -1659,6 +1675,17 @@ pub fn keepalive(seed: u64) -> Plan {
             }
         }
         p.peers.push(peer);
+    }
+    // a very slow honest seeder: pieces complete on its connection, minutes apart, while other
+    // peers sit silent on the same (end-game) pieces
+    if r.chance(1, 3) {
+        let mut s = base_peer(k, n);
+        s.unchoke = Unchoke::OnInterested(r.range(1, 2000));
+        s.answer.delay_min = r.range(60_000, 250_000);
+        s.answer.delay_max = s.answer.delay_min + r.range(0, 60_000);
+        s.keepalive = Some(50_000);
+        s.script.push(step(When::At(0), Act::Send(Msg::Interested)));
+        p.peers.push(s);
     }
     let names: Vec<String> = p.peers.iter().filter(|x| x.listed).map(|x| x.name.clone()).collect();
     p.tracker.steps.push((1, TrackerStep::Good { peers: names, malformed: 0, wrong_id_for: vec![] }));
